@@ -265,7 +265,7 @@ var (
 		},
 	}, {
 		In: Test{
-			Fn:             makeTestWithACK(DeleteNextHop, fluent.InstalledInRIB),
+			Fn:             makeTestWithACK(DeleteNextHop, fluent.InstalledInFIB),
 			ShortName:      "Delete NH entry successfully - FIB ACK",
 			RequiresFIBACK: true,
 		},
